@@ -322,3 +322,44 @@ def check_C06(ctx):
                   "every rejection class (including failures deep inside multi-segment paths); each sequence is replayed line by line on the "
                   "public parser state (verdict, objects, scratch list) and through decode(file) == decode(file minus rejected lines); "
                   "non-trivial = distinct sequences containing at least one rejected line")
+
+
+# ----------------------------------------------------------------------------
+EVENTS_INV = ["Refines", "PrefixOk", "Chrono", "TickFacts", "SizeHintSound"]
+
+
+def events_run(ctx, params, iters, cases, clear=True, expect_violation=False, emit=True):
+    cfg = dict(spec="Spec", invariants=EVENTS_INV if not expect_violation else ["PrefixOk"], properties=["NextFAgrees"] if not expect_violation else [],
+               constants=dict(Params="<-" + params, MaxIters=str(iters), ClearOnNew="TRUE" if clear else "FALSE",
+                              Emit="TRUE" if emit and not expect_violation else "FALSE"))
+    return tlc(ctx, "SliderEvents", "MC_SliderEvents_%s_%d%s" % (params, iters, "" if clear else "_noclear"), cfg, workers=14,
+               timeout=3000, cases_file=cases if emit and not expect_violation else None, expect_violation=expect_violation,
+               count=not expect_violation)
+
+
+def check_C20(ctx):
+    thorough = ctx.tier == "thorough"
+    for m in ("SliderEvents", "Trace_SliderEvents"):
+        sany(ctx, m)
+    cases = os.path.join(ctx.work, "events.ndjson")
+    events_run(ctx, "ParamsFull" if thorough else "ParamsQuick", 1, cases)
+    events_run(ctx, "ParamsBig", 2, cases)
+    events_run(ctx, "ParamsSmall", 3 if thorough else 2, cases)
+    # negative control: without ticks.clear() a stale buffer corrupts the next stream
+    events_run(ctx, "ParamsSmall", 2, None, clear=False, expect_violation=True)
+    summ = harness(ctx, ["events", "replay"], cases_file=cases, name="events-replay", timeout=3600)
+    report_mismatches(ctx, summ, "SliderEventsIter differs from the SliderEvents specification")
+    tcfg = dict(spec="TrSpec", invariants=["TrPrefix"], postcondition="Accepted",
+                constants=dict(Params="<-ParamsSmall", MaxIters="1", ClearOnNew="TRUE", Emit="FALSE"))
+    runs, iters = (300, 8) if thorough else (40, 6)
+    trace_step(ctx, "Trace_SliderEvents", "Trace_SliderEvents", tcfg,
+               ["events", "record", "--runs", str(runs), "--iters", str(iters)],
+               "recorded SliderEventsIter calls are not a behaviour of the SliderEvents specification", "events-trace")
+    ctx.assumptions += ["parameters on the dyadic 1/8 lattice with integer velocities (exactness rule): float and rational arithmetic agree on every branch",
+                        "real-valued parameters off the lattice are not claimed"]
+    return finish(ctx, "model_checking",
+                  "TLC explores the iterator state machine (head / pop / refill / last tick / tail, and New on a shared buffer from any "
+                  "state) over a parameter grid and checks refinement to the declarative stream, chronological order, tick placement and "
+                  "the size_hint lower bound; every completed behaviour (including the abandoned iterators before it) is replayed through "
+                  "the real SliderEventsIter on one buffer; non-trivial = distinct (history, parameters) with ticks/repeats or an abandoned "
+                  "predecessor; random lattice parameters with random abandon points are validated call by call by Trace_SliderEvents")
